@@ -2,11 +2,11 @@
    theorem cannot be weakened in its own file without this file failing to compile. *)
 From BT Require Import Base.Util.
 From BT Require Base.Float Model.RTree Model.BBIFile Model.BigWigWrite Model.Pipeline Model.TempBuf
-  Proofs.PipelineInv Proofs.PipelineThms Proofs.PipelineConv Properties.C11.
+  Proofs.PipelineInv Proofs.PipelineThms Proofs.PipelineConv Proofs.PipelineLanes Properties.C11.
 
 Module PinC11.
 Import Base.Float Model.RTree Model.BBIFile Model.BigWigWrite Model.Pipeline Proofs.PipelineInv Proofs.PipelineThms
-  Proofs.PipelineConv Properties.C11.
+  Proofs.PipelineConv Proofs.PipelineLanes Properties.C11.
 Check (C11_fifo_order : forall g pre Ss sched, g_fifo g = true ->
   let s := run g sched (init pre Ss) in
   length (p_chroms s) = length Ss /\
@@ -55,6 +55,16 @@ Check (C11_buffer_contract : forall (d0 : bytes) (secs : list sdata) (ws : list 
   let b := TempBuf.run d0 sched (TempBuf.init (map TempBuf.PWrite ws)
                                   (TempBuf.CSwitch :: repeat TempBuf.CReady npolls ++ [TempBuf.CAwait])) in
   TempBuf.terminal b = true -> TempBuf.c_dest b = Some (d0 ++ data_bytes secs)).
+Check (C11_lanes_splice : forall g Ps Sss K sched, g_fifo g = true ->
+  length Ps = length Sss -> (1 <= length Sss)%nat -> Forall (fun Ss => length Ss = K) Sss ->
+  let s := lrun g sched (linit Ps Sss) in
+  forall l, (l < length Sss)%nat ->
+    (exists n, nth l (l_files s) [] = nth l Ps [] ++ data_bytes (concat (firstn n (nth l Sss [])))) /\
+    (forall k c, nth_error (nth l (l_lanes s) []) k = Some c ->
+       c_out c ++ map fst (c_fifo c) ++ c_todo c = nth k (nth l Sss []) []) /\
+    (lterminal s = true ->
+       nth l (l_files s) [] = seq_file (nth l Ps []) (nth l Sss []) /\
+       place (Nlen (nth l Ps [])) (concat (map c_out (nth l (l_lanes s) []))) = seq_index (nth l Ps []) (nth l Sss []))).
 Check (C11_converter_order : forall win out0 Ts sched,
   let s := vrun win sched (vinit out0 Ts) in
   (exists n, v_file s = out0 ++ concat (map (@concat N) (firstn n Ts))) /\
